@@ -87,6 +87,15 @@ pub fn text_mix(s: &mut Src, w: [usize; 8]) -> (&'static str, String) {
         }
         k -= x;
     }
+    let (name, t) = text_mix_inner(s, which);
+    // one case in eight: blanks become other Unicode whitespace
+    if s.coin(1, 8) {
+        return (name, text::mutate_unicode_ws(s, &t, 96));
+    }
+    (name, t)
+}
+
+fn text_mix_inner(s: &mut Src, which: usize) -> (&'static str, String) {
     match which {
         0 => ("soup", text::g_soup(s, 12)),
         1 => ("text", text::g_text(s, 40)),
